@@ -381,3 +381,80 @@ Proof.
   intros k c V. unfold roundtrip, inject, b3_inject_single, b3_inject_multi, jaeger_inject.
   destruct k; rewrite V; split; reflexivity.
 Qed.
+
+(* ------------------------------------------------------------------ installed ids are the decoded id fields of the header *)
+Lemma b3_from_fields_ids : forall t s f c, install (b3_from_fields t s f) = Some c ->
+  decode_id 16 t = Some (c_tid c) /\ decode_id 8 s = Some (c_sid c).
+Proof.
+  intros t s f c H. unfold b3_from_fields in H.
+  destruct (negb (is_valid_hex t) || negb (is_valid_hex s)) eqn:V; [discriminate H|].
+  apply Bool.orb_false_elim in V. destruct V as [Vt Vs].
+  apply Bool.negb_false_iff in Vt. apply Bool.negb_false_iff in Vs.
+  change b3_tid_bytes with 16 in H. change b3_sid_bytes with 8 in H.
+  destruct (all_zero (hex_to_binary t 16) || all_zero (hex_to_binary s 8)) eqn:Z; [discriminate H|].
+  apply Bool.orb_false_elim in Z. destruct Z as [Zt Zs].
+  destruct (install_inv _ c H) as [E _]. subst c. cbn [c_tid c_sid].
+  split; apply installed_id_decodes; assumption.
+Qed.
+
+Lemma b3_extract_ids_lemma : forall b3 xt xs xf c, b3_extract b3 xt xs xf = Some c ->
+  decode_id 16 (fst (b3_id_fields b3 xt xs)) = Some (c_tid c) /\
+  decode_id 8 (snd (b3_id_fields b3 xt xs)) = Some (c_sid c).
+Proof.
+  intros b3 xt xs xf c H. unfold b3_extract, b3_extract_impl in H. unfold b3_id_fields.
+  destruct (is_nil b3); cbn [negb] in H.
+  - cbn [fst snd]. exact (b3_from_fields_ids xt xs xf c H).
+  - unfold split_string in H. unfold id_fields, field1.
+    rewrite (split_on_cut dash b3) in H.
+    destruct (cut dash b3) as [[t r]|]; [|discriminate H].
+    rewrite (split_on_cut dash r) in H.
+    destruct (cut dash r) as [[s r']|]; cbn [fst snd].
+    + cbn [firstn length Nat.ltb Nat.leb nth] in H. exact (b3_from_fields_ids t s _ c H).
+    + cbn [firstn length Nat.ltb Nat.leb nth] in H. exact (b3_from_fields_ids t r _ c H).
+Qed.
+
+Lemma jaeger_extract_ids_lemma : forall h c, jaeger_extract h = Some c ->
+  decode_id 16 (fst (id_fields colon h)) = Some (c_tid c) /\
+  decode_id 8 (snd (id_fields colon h)) = Some (c_sid c).
+Proof.
+  intros h c H. unfold jaeger_extract, jaeger_extract_impl, split_string in H. unfold id_fields, field1.
+  rewrite (split_on_cut colon h) in H.
+  destruct (cut colon h) as [[t r]|]; [|discriminate H].
+  rewrite (split_on_cut colon r) in H.
+  destruct (cut colon r) as [[s r']|]; cbn [fst snd]; [|discriminate H].
+  change (firstn 4 (t :: s :: split_on colon r')) with (t :: s :: firstn 2 (split_on colon r')) in H.
+  destruct (firstn 2 (split_on colon r')) as [|p [|f [|x rest]]]; cbv beta iota in H;
+    try (rewrite install_invalid in H; discriminate H).
+  destruct (negb (is_valid_hex t) || negb (is_valid_hex s) || negb (is_valid_hex f)) eqn:V; [discriminate H|].
+  apply Bool.orb_false_elim in V. destruct V as [V _]. apply Bool.orb_false_elim in V. destruct V as [Vt Vs].
+  apply Bool.negb_false_iff in Vt. apply Bool.negb_false_iff in Vs.
+  destruct (negb (hex_fits t 16)); [discriminate H|].
+  destruct (negb (hex_fits s 8)); [discriminate H|].
+  destruct (negb (hex_fits f 1)); [discriminate H|].
+  destruct (install_inv _ c H) as [E Vc]. subst c. cbn [c_tid c_sid].
+  destruct (valid_nonzero _ Vc) as [Nt Ns]. cbn [c_tid c_sid] in Nt, Ns. unfold nonzero in Nt, Ns.
+  apply Bool.negb_true_iff in Nt. apply Bool.negb_true_iff in Ns.
+  split; apply installed_id_decodes; assumption.
+Qed.
+
+(* hence: an over-long, empty or non-hexadecimal id field never leads to an installed context *)
+Lemma bad_id_field_not_installed_lemma :
+  (forall b3 xt xs xf,
+     decode_id 16 (fst (b3_id_fields b3 xt xs)) = None \/ decode_id 8 (snd (b3_id_fields b3 xt xs)) = None ->
+     b3_extract b3 xt xs xf = None) /\
+  (forall h,
+     decode_id 16 (fst (id_fields colon h)) = None \/ decode_id 8 (snd (id_fields colon h)) = None ->
+     jaeger_extract h = None).
+Proof.
+  split.
+  - intros b3 xt xs xf H. destruct (b3_extract b3 xt xs xf) as [c|] eqn:E; [|reflexivity].
+    destruct (b3_extract_ids_lemma _ _ _ _ _ E) as [A B]. destruct H as [H|H]; congruence.
+  - intros h H. destruct (jaeger_extract h) as [c|] eqn:E; [|reflexivity].
+    destruct (jaeger_extract_ids_lemma _ _ E) as [A B]. destruct H as [H|H]; congruence.
+Qed.
+
+Example ex_overlong_not_installed :
+  b3_extract (bs "4-ce5bb2fc79ba06613-0") [] [] [] = None /\
+  decode_id 8 (snd (b3_id_fields (bs "4-ce5bb2fc79ba06613-0") [] [])) = None /\
+  decode_id 16 (fst (b3_id_fields (bs "4-ce5bb2fc79ba06613-0") [] [])) = Some (zeros 15 ++ [x04]).
+Proof. repeat split; vm_compute; reflexivity. Qed.
